@@ -508,7 +508,7 @@ class Folder(FileSystemItemABC):
 
         def __call__(self, request: RequestFormat, context: Dict) -> bool:
             """Returns True if file exists."""
-            return self.folder.get_file(file_name=request[0]) is not None
+            return len(request) > 0 and self.folder.get_file(file_name=request[0]) is not None
 
         @property
         def fail_message(self) -> str:
@@ -527,6 +527,8 @@ class Folder(FileSystemItemABC):
 
         def __call__(self, request: RequestFormat, context: Dict) -> bool:
             """Returns True if file exists and is not deleted."""
+            if len(request) < 1:
+                return False
             file = self.folder.get_file(file_name=request[0])
             return file is not None and not file.deleted
 
